@@ -839,6 +839,9 @@ class SyncObj(object):
             ver = pickle.loads(command[1:])
             if self.__selfCodeVersion < ver:
                 raise SyncObjExceptionWrongVer(ver)
+            if ver < self.__enabledCodeVersion:
+                # A request that was accepted before a higher version got enabled: never go back
+                return
             oldVer = self.__enabledCodeVersion
             self.__enabledCodeVersion = ver
             callback = self.__conf.onCodeVersionChanged
